@@ -67,6 +67,24 @@ fn build() -> (Db, X) {
         create_deposit(&x, &mut db, m, x.w.user2, n, m.long, la, &[], Some((m.short, sa))).unwrap_or_else(|e| panic!("seed create {i}: {e:?}"));
         execute_deposit(&x, &mut db, m, x.w.user2, n, m.long, &[], Some(m.short), true).unwrap_or_else(|e| panic!("seed execute {i}: {e:?}"));
     }
+    // what open positions leave behind in the deposit market: collateral held in both pool tokens (recorded balance above the pools,
+    // backed by the vault), fabricated through a real RevertibleMarket — slack that lets a mis-recorded hop pass the balance validation
+    {
+        use gmsol_model::{Bank as _, PerpMarketMut as _, Pool as _, PoolExt as _};
+        let m0 = x.markets[0].clone();
+        let (ca, cb): (u64, u64) = (3_000_000, 60_000_000);
+        x.w.edit_market(&mut db, &m0, |rm| {
+            rm.collateral_sum_pool_mut(true).unwrap().apply_delta_to_long_amount(&(ca as i128)).unwrap();
+            rm.collateral_sum_pool_mut(true).unwrap().apply_delta_to_short_amount(&(cb as i128)).unwrap();
+            rm.record_transferred_in_by_token(&m0.long, &ca).unwrap();
+            rm.record_transferred_in_by_token(&m0.short, &cb).unwrap();
+        });
+        for (t, amt) in [(m0.long, ca), (m0.short, cb)] {
+            let v = x.w.vault(&t);
+            let cur = token_amount(&db, &v);
+            db.set(v, token_acc(t, x.w.store, cur + amt));
+        }
+    }
     (db, x)
 }
 
